@@ -15,6 +15,9 @@ if os.environ.get('QUANTITY_VERIF') == '1':
         import quantity  # noqa: F401
         import quantity.predefined  # noqa: F401
         qtrace.install()
+        import quantity.money  # noqa: F401
+        import qtrace_money
+        qtrace_money.install()
         qtrace.start(os.environ.get('QTRACE_FILE', '/tmp/qtrace.ndjson'))
 
     def pytest_unconfigure(config):
